@@ -15,6 +15,8 @@ STRINGS = {'abc': 'abc', 'd12': 'd12', '': '', 'name': 'name', 'n12x': 'n12x', '
            'good': 'good', 'has_comma': 'a,b', 'has_tab': 'a\tb', 'has_quote': 'say "hi", ok',
            'has_space': ' two words ', 'e5x': '1e5x', 'plusnum': ' +1_0 '}
 RSTRINGS = {v: k for k, v in STRINGS.items()}
+BIGINTS = {'b53p1': 2 ** 53 + 1}          # integers beyond 2^53 (tokens: TLC's integers are 32-bit)
+RBIGINTS = {v: k for k, v in BIGINTS.items()}
 
 
 # ---------------------------------------------------------------- tagged tree <-> Python value
@@ -109,6 +111,8 @@ def json_roundtrip(d, key, value):
 def build_cell(c):
     if c['c'] == 'int':
         return c['i']
+    if c['c'] == 'bigint':
+        return BIGINTS[c['s']]
     if c['c'] == 'float':
         return FLOATS[c['f']]
     return STRINGS[c['s']]
@@ -116,6 +120,10 @@ def build_cell(c):
 
 def project_cell(v, four=False):
     if isinstance(v, bool):
+        return dict(c='other', s=repr(v))
+    if isinstance(v, int) and v in RBIGINTS:
+        return dict(c='bigint', s=RBIGINTS[v])
+    if isinstance(v, int) and abs(v) >= 2 ** 31:
         return dict(c='other', s=repr(v))
     if isinstance(v, int):
         return dict(c='int', i=v)
@@ -233,7 +241,7 @@ def _rand_value(rng, depth):
 
 def _random_records(ctx, d, count):
     rng = np.random.RandomState(ctx.seed + 18)
-    cells = ([dict(c='int', i=3), dict(c='int', i=-2), dict(c='int', i=123456789)] +
+    cells = ([dict(c='int', i=3), dict(c='int', i=-2), dict(c='int', i=123456789), dict(c='bigint', s='b53p1')] +
              [dict(c='float', f=f) for f in ('f15', 'f123456', 'f05')] +
              [dict(c='str', s=s) for s in ('good', 'has_comma', 'has_tab', 'has_quote', 'has_space', 'e5x')])
     fields = ['amp', 'cluster_id', 'group']
